@@ -177,6 +177,11 @@ type Runner struct {
 	haltPre    *Snap
 	curBlock   *Block
 
+	// consensus inputs of the block being executed (used by the ABCI differential executor)
+	lastVotes    []abci.VoteInfo
+	lastMis      []abci.Misbehavior
+	lastProposer []byte
+
 	// C19
 	branchMode    bool
 	branchStores  map[string]string
@@ -536,6 +541,7 @@ func (r *Runner) runBlock(b *Block, shadow bool) {
 		mis = append(mis, abci.Misbehavior{Type: abci.MisbehaviorType_DUPLICATE_VOTE, Validator: abci.Validator{Address: va.ConsAddr, Power: pp}, Height: ih, Time: it, TotalVotingPower: totalPower})
 	}
 
+	r.lastVotes, r.lastMis, r.lastProposer = votes, mis, proposer
 	root := w.CtxAt(w.Height, w.Now, proposer).WithVoteInfos(votes).WithCometInfo(simComet{ev: mis, proposer: proposer, votes: votes})
 	if r.branchMode {
 		// sibling execution: the whole block runs on a discarded branch of the committed state
